@@ -300,7 +300,9 @@ class Interp:
         need(got_items == new, f"{ctx}: items afterwards {got_items}, expected {new}")
 
     # -- the invariant -----------------------------------------------------------------------
-    def invariant(self):
+    def invariant(self, lazy=False):
+        """lazy: leave the known-property attributes unread (only explicit operations read them), so that state an
+        attribute read might refresh stays as the history left it"""
         kind, o, items = self.kind, self.obj, self.items
         w = f"{self.where()} after {self.evals} operations"
         need(items_of(o) == items, f"{w}: items {items_of(o)}, expected {items}")
@@ -308,7 +310,7 @@ class Interp:
         need(list(o) == ks and list(o.keys()) == ks and len(o) == len(ks), f"{w}: iteration gives {list(o)}, expected {ks}")
         if kind == "smchart":
             need(ks == list(M.SM_FIELDS), f"{w}: an SM chart must expose exactly {list(M.SM_FIELDS)}, has {ks}")
-        for attr, (std, alias) in ATTRS[kind].items():
+        for attr, (std, alias) in ([] if lazy else ATTRS[kind].items()):
             exp = m_lookup(items, M.attr_key(items, std, alias))
             got = getattr(o, attr)
             need(got == exp and (got is None) == (exp is None), f"{w}: attribute {attr} reads {got!r}, expected {exp!r}; mapping {items}")
@@ -320,6 +322,12 @@ class Interp:
         if self.prev is not None and dict(map(tuple, self.prev)) != dict(map(tuple, items)):
             old = build(kind, self.prev, other_via(kind, self.via))
             need(o != old and not (o == old), f"{w}: compares equal to an object holding {self.prev} while it holds {items}")
+        if kind == "smchart":
+            # equality sees exactly the mapping's content: a field that differs only by surrounding blanks is a difference
+            fi = self.evals % len(M.SM_FIELDS)
+            other = build(kind, items, other_via(kind, self.via))
+            setattr(other, M.SM_ATTRS[fi], items[fi][1] + " ")
+            need(not (o == other) and not (other == o), f"{w}: compares equal to a chart whose {M.SM_FIELDS[fi]} is {items[fi][1] + ' '!r} instead of {items[fi][1]!r}")
         self._serialization(w)
 
     def _serialization(self, w):
@@ -474,10 +482,13 @@ def check_history(case):
     if why:
         return Verdict(excluded=why)
     interp = Interp(kind, case["start"])
-    interp.invariant()
+    lazy = bool(case["start"].get("lazy"))
+    interp.invariant(lazy=lazy)
     for op in case["ops"]:
         interp.step(op)
-        interp.invariant()
+        interp.invariant(lazy=lazy and interp.evals % 7 != 0)
+    if lazy:
+        interp.labels.add("lazy-attribute-reads")
     labels = set(interp.labels) | {"kind:" + kind, "start:" + interp.via}
     return Verdict(nontrivial=interp.changes >= 3, labels=sorted(labels), evals=max(1, interp.evals))
 
@@ -563,11 +574,13 @@ def s_start(kind):
         )
     key = st.one_of(st.sampled_from(hot_keys), st.sampled_from(known), st.sampled_from(unrelated))
     some = st.lists(st.tuples(key, VALUE).map(list), max_size=5, unique_by=lambda p: p[0])
-    return st.one_of(
+    base = st.one_of(
         st.just({"via": "setitem", "items": []}),
         st.just({"via": "blank"}),
         st.tuples(st.sampled_from(["setitem", "parse"]), some).map(lambda t: {"via": t[0], "items": t[1]}),
     )
+    # half of the histories leave the attributes unread between operations (see Interp.invariant)
+    return st.tuples(base, st.booleans()).map(lambda t: dict(t[0], lazy=t[1]))
 
 
 def machine_factory(kind):
@@ -608,7 +621,8 @@ def machine_factory(kind):
             if self.interp is None:
                 return
             try:
-                self.interp.invariant()
+                lazy = bool((self.start or {}).get("lazy"))
+                self.interp.invariant(lazy=lazy and self.interp.evals % 7 != 0)
             except BaseException:
                 self.failed = True
                 raise
